@@ -10,7 +10,7 @@ use pdf::object::{MaybeRef, PageRc, ParseOptions, Resources};
 use pdf::primitive::Primitive;
 use serde_json::{json, Value};
 
-fn node_body(case: &Value, i: usize) -> Vec<u8> {
+fn node_body(case: &Value, i: usize, numrefs: bool) -> Vec<u8> {
     let n = case["n"].as_u64().unwrap() as usize;
     let kind = case["kind"][i - 1].as_str().unwrap();
     let parent = case["parent"][i - 1].as_u64().unwrap();
@@ -25,11 +25,13 @@ fn node_body(case: &Value, i: usize) -> Vec<u8> {
     if parent != 0 {
         s += &format!("/Parent {} 0 R ", parent);
     }
+    // in the plain layout the first coordinate of every second node's boxes is a reference to a number object (n + 5, n + 6)
+    let (m0, c0) = if numrefs && i % 2 == 1 { (format!("{} 0 R", n + 5), format!("{} 0 R", n + 6)) } else { ("3".to_string(), "1".to_string()) };
     if has("mset") {
-        s += &format!("/MediaBox [3 7 {} {}] /Resources << /ExtGState << /GS{} << /LW 1 >> >> >> ", 100 + i, 200 + i, i);
+        s += &format!("/MediaBox [{} 7 {} {}] /Resources << /ExtGState << /GS{} << /LW 1 >> >> >> ", m0, 100 + i, 200 + i, i);
     }
     if has("cset") {
-        s += &format!("/CropBox [1 2 {} {}] ", 50 + i, 60 + i);
+        s += &format!("/CropBox [{} 2 {} {}] ", c0, 50 + i, 60 + i);
     }
     s += ">>";
     s.into_bytes()
@@ -44,12 +46,16 @@ pub fn build(case: &Value, layout: usize) -> Vec<u8> {
     e.push((cat, XEntry::InUse { off: o, gen: 0 }));
     if layout == 0 {
         for i in 1..=n {
-            let o = d.obj(i as u64, 0, &node_body(case, i));
+            let o = d.obj(i as u64, 0, &node_body(case, i, true));
             e.push((i as u64, XEntry::InUse { off: o, gen: 0 }));
         }
-        d.xref_table(&e, cat + 1, &format!("/Root {} 0 R", cat), None, Split::Min);
+        let o = d.obj(n as u64 + 5, 0, b"3");
+        e.push((n as u64 + 5, XEntry::InUse { off: o, gen: 0 }));
+        let o = d.obj(n as u64 + 6, 0, b"1");
+        e.push((n as u64 + 6, XEntry::InUse { off: o, gen: 0 }));
+        d.xref_table(&e, n as u64 + 7, &format!("/Root {} 0 R", cat), None, Split::Min);
     } else {
-        let members: Vec<(u64, Vec<u8>)> = (1..=n).map(|i| (i as u64, node_body(case, i))).collect();
+        let members: Vec<(u64, Vec<u8>)> = (1..=n).map(|i| (i as u64, node_body(case, i, false))).collect();
         let cont = cat + 1;
         let o = d.objstm(cont, &members, Filter::Flate, " ", b" ", false, "");
         e.push((cont, XEntry::InUse { off: o, gen: 0 }));
